@@ -46,7 +46,7 @@ man = {
     ],
     "checks": checks,
     "not_applicable": na,
-    "notes": "All checks are static analysis (family: static analysis). Exit 0 held / 1 VIOLATION / 2 ANALYSIS-ERROR (anchor lost, unknown idiom). Known genuine defects are listed in /verif/KNOWN_FINDINGS.json. See DESIGN.md.",
+    "notes": "All checks are static analysis (family: static analysis). Exit 0 held / 1 VIOLATION / 2 ANALYSIS-ERROR (anchor lost, unknown idiom). Known genuine defects are listed in /verif/KNOWN_FINDINGS.json. See DESIGN.md. Input normalisation (round 6): before the rules run, behaviour-preserving rewrites of the analysed tree are restored to the reference tree's spelling (nmfulint/canon.py: condition / control-shape / temporary / loop / name / helper equivalences, each with checked side conditions; one aliasing assumption stated in DESIGN 9.9), so that clean-up edits do not raise alarms; measured silent on 74 of 95 agent-written refactorings.",
 }
 json.dump(man, open(os.path.join(HERE, "MANIFEST.json"), "w"), indent=1)
 try:
